@@ -60,6 +60,10 @@ def run_cli(spec, tier, seed):
                 args = ['solve', path, '--year', str(year)]
                 for f in p.forms():
                     args += ['--form', f]
+                if (k + len(name)) % 2 == 1:
+                    # the report is due whether the solution goes to the terminal or to a file
+                    args += ['--solution', os.path.join(tmp, 'sol.ini')]
+                    res.count('cli_runs_with_solution_file')
                 r = cli.run_cli(args)
                 q = scen.Persona(year, fam, p.key)
                 q.nc = p.nc
